@@ -194,6 +194,13 @@ P_C15(pre, e) ==
     /\ Ck("C15", "RemovedOnlyAfterComplete", LeftLiveWhileIncomplete(pre, post) = {},
           LeftLiveWhileIncomplete(pre, post))
     /\ Ck("C15", "LiveInBlotter", LiveNotInBlotter(post) = {}, LiveNotInBlotter(post))
+    \* the order created by a replace is filed in the views of the client the replaced order was placed for
+    /\ (e.ev = "exec" /\ e.a.kind = "REPLACE" =>
+          \A o \in DOMAIN e.a.rlab :
+             LET rl == e.a.rlab[o] IN
+             (Has(pre.ord, o) /\ Has(post.ord, rl) /\ ~Has(pre.ord, rl)) =>
+                Ck("C15", "ReplacementFiledForItsClient", post.ord[rl].client = pre.ord[o].client,
+                   <<o, rl, pre.ord[o].client, post.ord[rl].client>>))
 
 P_C07(pre, e) ==
     LET post == e.st IN
